@@ -7,6 +7,7 @@ def explore(run, lean):
     pubsub_corr.explore_position(run, focus="C07")
     conc_corr.explore_live(run, "C07", 20 if run.tier == "quick" else 400)
     fabric_corr.explore_number_subscription_race(run, "C07", 40 if run.tier == "quick" else 1200)
+    fabric_corr.explore_same_queue_race(run, "C07", 60 if run.tier == "quick" else 1500)
     run.extra["rule"] = ("(a) configuration space: subscriber spied/un-spied x subscribe before start / after start from outside / "
                          "from its own handler x fifo/lifo x 0-2 other active objects already subscribed x publisher spied/un-spied x "
                          "publish before start / outside / own handler = 216 configurations (quick: a seeded sample of 48, thorough: all); "
